@@ -75,6 +75,7 @@ type Contract struct {
 	PureResult   string // name of the logic function giving the first result as a function of the parameters
 	PureVerdict  string // name of the logic function giving "first error result is nil" as a function of the parameters
 	used         bool
+	usedStrict   bool // used outside a declared error swallow (C03)
 }
 
 type LetDef struct {
